@@ -10,6 +10,9 @@ refines them.
 from __future__ import annotations
 
 import collections
+import datetime
+import io
+import re
 import enum
 import types
 import uuid
@@ -31,6 +34,12 @@ class _Opaque:
 
     def __repr__(self):
         return "<opaque>"
+
+
+def _bytesio_read():
+    b = io.BytesIO(b"abcdef")
+    b.read(2)
+    return b
 
 
 def _gen():
@@ -133,6 +142,22 @@ CELLS = [
     ("deque", lambda: collections.deque([1])),
     ("uuid", lambda: uuid.UUID(int=1)),
     ("opaque", _Opaque),
+    # typed values: the arguments of the scalar dumpers (and odd inputs of every loader)
+    ("date", lambda: datetime.date(2020, 1, 2)),
+    ("date_epoch", lambda: datetime.date(1970, 1, 1)),
+    ("datetime_naive", lambda: datetime.datetime(2020, 1, 2, 10, 20, 30, 123456)),
+    ("datetime_utc", lambda: datetime.datetime(2020, 1, 2, 0, 20, 30, tzinfo=datetime.timezone.utc)),
+    ("datetime_plus3", lambda: datetime.datetime(2020, 1, 2, 1, 20, 30, tzinfo=datetime.timezone(datetime.timedelta(hours=3)))),
+    ("time", lambda: datetime.time(10, 20, 30)),
+    ("timedelta_pos", lambda: datetime.timedelta(minutes=10, microseconds=5)),
+    ("timedelta_negfrac", lambda: datetime.timedelta(seconds=-2.5)),
+    ("timedelta_zero", lambda: datetime.timedelta(0)),
+    ("bytes_bin3", lambda: b"\xff\xfe\xfd"),
+    ("bytes_long", lambda: bytes(range(70))),        # base64 text longer than one MIME line (76 characters)
+    ("bytesio", lambda: io.BytesIO(b"abc")),
+    ("bytesio_read", _bytesio_read),                 # the stream position is not at the start
+    ("pattern", lambda: re.compile("a+b")),
+    ("pattern_flags", lambda: re.compile("a+b", re.IGNORECASE)),
 ]
 
 CELL_NAMES = [c[0] for c in CELLS]
